@@ -27,8 +27,9 @@ type program struct {
 }
 
 type progPkg struct {
-	Path  string   `json:"path"`
-	Files []string `json:"files"`
+	Path     string   `json:"path"`
+	ImportAs string   `json:"import_as,omitempty"` // what source files write to import it (a vendored package: its path without the vendor prefix)
+	Files    []string `json:"files"`
 }
 
 type checked struct {
@@ -68,6 +69,9 @@ func typeCheck(p program) *checked {
 			return c
 		}
 		c.pkgs[pk.Path] = tp
+		if pk.ImportAs != "" {
+			c.pkgs[pk.ImportAs] = tp
+		}
 		c.files[pk.Path] = fs
 		c.info[pk.Path] = info
 	}
@@ -103,11 +107,11 @@ func expectedPath(info *types.Info, self *types.Package, id *ast.Ident) string {
 var c09Programs = []program{
 	{Pkgs: []progPkg{
 		{Path: "root/a", Files: []string{"package a\n\ntype Inner struct{ V int }\n\ntype Ptr struct{ P int }\n\ntype Outer struct {\n\tInner\n\t*Ptr\n\tF int\n}\n\nconst K = 1\n\nvar X = 2\n\nfunc Fn() int { return 1 }\n\ntype Num interface{ ~int }\n\nfunc Gen[T Num](t T) T { return t }\n\ntype T struct{ A int }\n\nfunc (T) M() int { return 0 }\n\ntype Pair[K comparable, V any] struct {\n\tKey K\n\tVal V\n}\n"}},
-		{Path: "root/vendor/ext/v", Files: []string{"package v\n\nvar VV = 1\n\nfunc VF() int { return VV }\n\ntype VT struct{ N int }\n"}},
+		{Path: "root/vendor/ext/v", ImportAs: "ext/v", Files: []string{"package v\n\nvar VV = 1\n\nfunc VF() int { return VV }\n\ntype VT struct{ N int }\n"}},
 		{Path: "root/main", Files: []string{
-			"package main\n\nimport (\n\t\"root/a\"\n\t\"root/vendor/ext/v\"\n)\n\nvar local = a.X + a.Fn() + a.K + v.VV + v.VF()\n\ntype mine struct {\n\ta.Inner\n\tt a.T\n}\n\nfunc use(t a.T, o *a.Outer) int {\n\tq := a.Outer{Inner: a.Inner{V: 1}, Ptr: &a.Ptr{P: 2}, F: 3}\n\t_ = q\n\tp := a.Pair[string, a.T]{Key: \"k\", Val: a.T{A: 1}}\n\t_ = p.Val.A\n\tw := v.VT{N: local}\n\tw.N++\nL:\n\tfor i := 0; i < 2; i++ {\n\t\tcontinue L\n\t}\n\treturn t.M() + t.A + o.F + o.Inner.V + o.P + a.Gen[int](3) + a.Gen(4)\n}\n\nfunc sh() int {\n\ta := a.T{A: 1}\n\treturn a.A + a.M()\n}\n\nfunc main() { _ = use(a.T{}, &a.Outer{}) + sh() + len(\"x\") }\n",
+			"package main\n\nimport (\n\t\"root/a\"\n\t\"ext/v\"\n)\n\nvar local = a.X + a.Fn() + a.K + v.VV + v.VF()\n\ntype mine struct {\n\ta.Inner\n\tt a.T\n}\n\nfunc use(t a.T, o *a.Outer) int {\n\tq := a.Outer{Inner: a.Inner{V: 1}, Ptr: &a.Ptr{P: 2}, F: 3}\n\t_ = q\n\tp := a.Pair[string, a.T]{Key: \"k\", Val: a.T{A: 1}}\n\t_ = p.Val.A\n\tw := v.VT{N: local}\n\tw.N++\nL:\n\tfor i := 0; i < 2; i++ {\n\t\tcontinue L\n\t}\n\treturn t.M() + t.A + o.F + o.Inner.V + o.P + a.Gen[int](3) + a.Gen(4)\n}\n\nfunc sh() int {\n\ta := a.T{A: 1}\n\treturn a.A + a.M()\n}\n\nfunc main() { _ = use(a.T{}, &a.Outer{}) + sh() + len(\"x\") }\n",
 			"package main\n\nimport . \"root/a\"\n\nvar dotted = X + Fn() + K\n\nfunc dot(t T) int {\n\to := Outer{Inner: Inner{V: 1}, Ptr: &Ptr{}, F: 2}\n\tm := map[Inner]int{Inner{V: 1}: X}\n\t_ = m\n\treturn t.M() + o.V + Gen[int](1)\n}\n",
-			"package main\n\nimport (\n\tpk \"root/a\"\n\tvv \"root/vendor/ext/v\"\n)\n\nvar aliased = pk.X + vv.VV\n\nfunc al(x pk.T) pk.Inner { return pk.Inner{V: x.A} }\n",
+			"package main\n\nimport (\n\tpk \"root/a\"\n\tvv \"ext/v\"\n)\n\nvar aliased = pk.X + vv.VV\n\nfunc al(x pk.T) pk.Inner { return pk.Inner{V: x.A} }\n",
 		}},
 	}},
 }
